@@ -267,7 +267,7 @@ type RunResult struct {
 	Forks        int
 	Decisions    int
 	Steps        int64
-	QFeas, QAssert, QSat, QUnsat, QUnknown, CacheHits, SynHits, OneShot, AltSolver int
+	QFeas, QAssert, QSat, QUnsat, QUnknown, CacheHits, SynHits, OneShot, AltSolver, SolverRestarts int
 	SolverTime   time.Duration
 	Wall         time.Duration
 	Funcs        map[*ssa.Function]bool
@@ -395,6 +395,7 @@ func (e *Engine) explore(entry *ssa.Function, expectBlock bool) *RunResult {
 				rr.SynHits += res.SynHits
 				rr.OneShot += res.OneShot
 				rr.AltSolver += res.AltSolver
+				rr.SolverRestarts += res.SolverRestarts
 				if res.NDecisions > rr.MaxDepthSeen {
 					rr.MaxDepthSeen = res.NDecisions
 				}
